@@ -189,10 +189,40 @@ def quoted_inner_sweep(ctx):
                         _check_ref(ctx, 'UPDATE ' + r + ' SET v = 1', r, name, qual, alias, 'quoted-update')
 
 
+def scale_contexts(rng, ref):
+    """the same references in statements that are LARGE in one dimension at a time: many sibling groups of one kind before / after the reference
+    (in the same list, and in the list enclosing its subquery), many tokens, deep nesting.  The property has no size bound."""
+    kinds = ['f%d(z)', '(%d)', 'case when a then %d end', 'q%d AS y', 't.c%d', 'c%d', 'a + %d', "'s%d'", 'f%d(z) AS y', 'cast(x%d as int)']
+    for n in (130, 1100):
+        k = rng.choice(kinds)
+        many = ', '.join(k % i for i in range(n))
+        yield 'scale:list-before:%d' % n, 'SELECT ' + many + ', ' + ref + ' FROM tt'
+        yield 'scale:list-after:%d' % n, 'SELECT ' + ref + ', ' + many + ' FROM tt'
+        yield 'scale:outer-list-before-subquery:%d' % n, 'SELECT ' + many + ' FROM (SELECT ' + ref + ' FROM tt) sub'
+        yield 'scale:outer-list-before-subquery-as:%d' % n, 'SELECT ' + many + ', (SELECT ' + ref + ' FROM tt) AS s1 FROM zz'
+        yield 'scale:from-after:%d' % n, 'SELECT a FROM ' + ref + ', ' + ', '.join('t%d x%d' % (i, i) for i in range(n))
+        yield 'scale:where-before-join:%d' % n, 'SELECT a FROM tt JOIN ' + ref + ' ON k1 = k2 WHERE ' + ' AND '.join('c%d = %d' % (i, i) for i in range(n))
+    yield 'scale:tokens-12k', 'SELECT ' + ref + ', ' + ',  '.join('c%d' % i for i in range(3100)) + '  FROM tt'
+    for d in (25, 60):
+        yield 'scale:nested-subquery:%d' % d, 'SELECT q FROM ' + '(SELECT q FROM ' * d + '(SELECT ' + ref + ' FROM tt) s0' + ') s' * d
+        yield 'scale:nested-paren:%d' % d, 'SELECT ' + '(' * d + 'SELECT ' + ref + ' FROM tt' + ')' * d
+
+
+def scale_cases(ctx):
+    rng = ctx.rng
+    for _ in range(ctx.n(5, 40)):
+        ref, name, qual, alias = make_ref(rng)
+        for cname, text in scale_contexts(rng, ref):
+            if ctx.quick() and rng.random() < 0.5:
+                continue
+            oracle(ctx, text, sql.Identifier, ref, name, qual, alias, cname.split(':')[0] + ':' + cname.split(':')[1])
+
+
 def run(ctx):
     rng = ctx.rng
     texts = []
     quoted_inner_sweep(ctx)
+    scale_cases(ctx)
     for it in range(ctx.n(500, 12000)):
         ref, name, qual, alias = make_ref(rng)
         for cname, text, cls in contexts(rng, ref, alias is not None):
